@@ -258,9 +258,14 @@ func (r *standardRenderer) flush() {
 		}
 	}
 
-	// Clearing left over content from last render.
-	if r.lastLinesRendered() > len(newLines) {
-		buf.WriteString(ansi.EraseScreenBelow)
+	// Clearing left over content from last render. The cursor is still on the
+	// new last line: at its start when that line was skipped as unchanged, or
+	// on its last cell when the line is as wide as the window. Erasing from
+	// there would take (part of) that line with it, so erase from the row
+	// below and come back. When the new frame fills the window there is
+	// nothing below it (and a line feed would scroll).
+	if r.lastLinesRendered() > len(newLines) && (r.height <= 0 || len(newLines) < r.height) {
+		buf.WriteString("\r\n" + ansi.EraseScreenBelow + ansi.CursorUp(1))
 	}
 
 	if r.altScreenActive {
